@@ -45,12 +45,13 @@ var spValues = []string{"1", "2", "", "x y", "&=", "é", "+", "%41"}
 
 type obs struct {
 	Href, ToString, ToJSON, Search, Host, Hostname, Port, Protocol string
-	Params                                                      [][2]string
-	WithParams                                                  bool
-	Threw                                                       bool
-	Reparse                                                     string // new URL(href).href, or "THROWS"
-	Held                                                        [][2]string // what the searchParams object obtained EARLIER lists (HasHeld)
-	HasHeld                                                     bool
+	Params                                                         [][2]string
+	WithParams                                                     bool
+	Threw                                                          bool
+	Reparse                                                        string      // new URL(href).href, or "THROWS"
+	Held                                                           [][2]string // what the searchParams object obtained EARLIER lists (HasHeld)
+	HasHeld                                                        bool
+	Silent                                                         bool // the step was made without reading anything back
 }
 
 func coqPairs(ps [][2]string) string {
@@ -62,8 +63,8 @@ func coqPairs(ps [][2]string) string {
 }
 
 func (o obs) coq() string {
-	return fmt.Sprintf("{| o_href := %s; o_tostring := %s; o_tojson := %s; o_search := %s; o_host := %s; o_hostname := %s; o_port := %s; o_protocol := %s; o_params := %s; o_threw := %s |}",
-		lib.ZsStr(o.Href), lib.ZsStr(o.ToString), lib.ZsStr(o.ToJSON), lib.ZsStr(o.Search), lib.ZsStr(o.Host), lib.ZsStr(o.Hostname), lib.ZsStr(o.Port), lib.ZsStr(o.Protocol), map[bool]string{true: "(Some " + coqPairs(o.Params) + ")", false: "None"}[o.WithParams], lib.Bool(o.Threw))
+	return fmt.Sprintf("{| o_href := %s; o_tostring := %s; o_tojson := %s; o_search := %s; o_host := %s; o_hostname := %s; o_port := %s; o_protocol := %s; o_params := %s; o_threw := %s; o_silent := %s |}",
+		lib.ZsStr(o.Href), lib.ZsStr(o.ToString), lib.ZsStr(o.ToJSON), lib.ZsStr(o.Search), lib.ZsStr(o.Host), lib.ZsStr(o.Hostname), lib.ZsStr(o.Port), lib.ZsStr(o.Protocol), map[bool]string{true: "(Some " + coqPairs(o.Params) + ")", false: "None"}[o.WithParams], lib.Bool(o.Threw), lib.Bool(o.Silent))
 }
 
 func optZs(ok bool, s string) string {
@@ -125,7 +126,7 @@ function __obs(u, withParams, sp) {
   try { o.Reparse = new URL(o.Href).href } catch (e) { o.Reparse = "THROWS" }
   return JSON.stringify(o);
 }
-function __step(u, sp, kind, a, b, withParams) {
+function __step(u, sp, kind, a, b, withParams, silent) {
   var threw = false;
   try {
     switch (kind) {
@@ -136,6 +137,7 @@ function __step(u, sp, kind, a, b, withParams) {
     case "username": u.username = a; break; case "password": u.password = a; break;
     }
   } catch (e) { threw = true }
+  if (silent) return JSON.stringify({Threw: threw, Silent: true});   // nothing is read back: the next step meets whatever this one left
   var o = JSON.parse(__obs(u, withParams, sp)); o.Threw = threw; return JSON.stringify(o);
 }`)
 	if err != nil {
@@ -307,7 +309,18 @@ function __step(u, sp, kind, a, b, withParams) {
 			case "pathname":
 				coqOps = append(coqOps, "OPath "+lib.ZsStr(a))
 			}
-			v, err := vm.RunString(fmt.Sprintf("__step(__u, __sp, %s, %s, %s, %v)", js(p.Kind), js(p.A), js(p.B), withParams))
+			// a third of the steps that leave scheme and host alone are made blind: no getter runs between them and the next step
+			silent := false
+			switch p.Kind {
+			case "search", "hash", "append", "delete", "set", "sort", "materialise", "username", "password", "pathname":
+				silent = pi < len(ops)-1 && r.Chance(35)
+			}
+			if silent {
+				out.Count("step", "blind")
+			} else {
+				out.Count("step", "observed")
+			}
+			v, err := vm.RunString(fmt.Sprintf("__step(__u, __sp, %s, %s, %s, %v, %v)", js(p.Kind), js(p.A), js(p.B), withParams, silent))
 			if err != nil {
 				out.Fail(len(out.Cases), "step-failed", map[string]string{"base": base, "err": err.Error()})
 				skip = true
@@ -319,7 +332,9 @@ function __step(u, sp, kind, a, b, withParams) {
 				out.Fail(len(out.Cases), "held-searchParams-object-out-of-date", map[string]interface{}{"base": base, "ops": ops[:pi+1],
 					"held_object_lists": o.Held, "url.searchParams_lists": o.Params, "search": o.Search})
 			}
-			cur = o
+			if !o.Silent {
+				cur = o
+			}
 			allObs = append(allObs, o)
 		}
 		if skip {
@@ -384,7 +399,7 @@ function __step(u, sp, kind, a, b, withParams) {
 		id := out.Add(coq, map[string]interface{}{"base": base, "ops": ops, "early": early, "final": cur}, len(ops) >= 2)
 		// Go-side oracle: the href parses again to the same href
 		for i, o := range allObs {
-			if o.Reparse != o.Href {
+			if !o.Silent && o.Reparse != o.Href {
 				out.Fail(id, "href-does-not-reparse-to-itself", map[string]interface{}{"base": base, "ops": ops[:i], "href": o.Href, "reparsed": o.Reparse})
 				break
 			}
